@@ -2,6 +2,7 @@ package props
 
 import (
 	"go/token"
+	"strings"
 
 	"golang.org/x/tools/go/ssa"
 
@@ -239,7 +240,9 @@ func runC19(c *core.Ctx) {
 	}
 
 	// ---- HasAnyPerm: any-of over the given perms, for the given username
-	if fn := c.Fn("C19.a", "auth", "(*CredentialsStore).HasAnyPerm"); fn != nil {
+	if fn := c.Fn("C19.a", "auth", "(*CredentialsStore).HasAnyPerm"); fn != nil && c19anyOfLibraryForm(fn) {
+		c.OK("C19.a", "DECIDE", "(*CredentialsStore).HasAnyPerm", c.P.Pos(fn.Pos()), "HasAnyPerm is slices.ContainsFunc over the caller's permission list with HasPerm(username, p) as the predicate: any-of by definition")
+	} else if fn != nil {
 		target := fn
 		if len(fn.AnonFuncs) == 1 {
 			target = fn.AnonFuncs[0]
@@ -417,4 +420,57 @@ func runC19(c *core.Ctx) {
 			"each entry installs a fresh permission map for its user before adding permissions (last definition wins)",
 			"permissions of a user defined twice are merged instead of replaced (no fresh map is installed per entry before filling)", nil)
 	}
+}
+
+// c19anyOfLibraryForm: HasAnyPerm written as
+//
+//	return slices.ContainsFunc(perm, func(p string) bool { return c.HasPerm(username, p) })
+//
+// — the standard library's any-of over the caller's permission list, with
+// HasPerm for HasAnyPerm's own user as the predicate.
+func c19anyOfLibraryForm(fn *ssa.Function) bool {
+	if len(fn.Params) < 3 || len(fn.AnonFuncs) != 1 {
+		return false
+	}
+	g := fn.AnonFuncs[0]
+	var lib *ssa.Call
+	for _, ci := range an.AllCalls(fn, false) {
+		if call, ok := ci.(*ssa.Call); ok && strings.HasPrefix(an.CalleeID(call), "slices.ContainsFunc") {
+			if lib != nil {
+				return false
+			}
+			lib = call
+		}
+	}
+	if lib == nil || len(lib.Call.Args) != 2 || !isParamN(fn, 2)(lib.Call.Args[0]) {
+		return false
+	}
+	if mc, ok := an.Unwrap(lib.Call.Args[1]).(*ssa.MakeClosure); !ok || mc.Fn != ssa.Value(g) {
+		return false
+	}
+	// every return of HasAnyPerm is the library call's verdict
+	rets := an.Returns(fn)
+	if len(rets) == 0 {
+		return false
+	}
+	for _, r := range rets {
+		if len(r.Results) != 1 || an.Unwrap(r.Results[0]) != ssa.Value(lib) {
+			return false
+		}
+	}
+	// the predicate: return c.HasPerm(username, p)
+	grets := an.Returns(g)
+	if len(grets) != 1 || len(grets[0].Results) != 1 || len(g.Params) != 1 {
+		return false
+	}
+	hp, ok := an.Unwrap(grets[0].Results[0]).(*ssa.Call)
+	if !ok || !an.IsCall(hp, "auth.CredentialsStore.HasPerm") || len(hp.Call.Args) != 3 {
+		return false
+	}
+	user := hp.Call.Args[1]
+	if u, isU := user.(*ssa.UnOp); isU {
+		user = u.X
+	}
+	fv, isFV := user.(*ssa.FreeVar)
+	return isFV && fv.Name() == fn.Params[1].Name() && an.Unwrap(hp.Call.Args[2]) == ssa.Value(g.Params[0])
 }
